@@ -50,6 +50,13 @@ T read_binary(std::istream & fs)
 
     fs.read(reinterpret_cast<char *>(&rv), sizeof(T));
 
+    if (fs.fail()) {
+        throw std::runtime_error(
+            "Deserialization of covfie vector field failed due to unexpected "
+            "end of input stream"
+        );
+    }
+
     return rv;
 }
 
